@@ -27,14 +27,19 @@ Definition fmaxabs (l : list float) : float :=
 Definition is_nan (x : float) : bool := negb (PrimFloat.eqb x x).
 (* NaN agrees with NaN (model and implementation degenerate in the same place); the property oracles,
    not the correspondence, decide whether a NaN is acceptable *)
-Definition flist_close_scaled (tol : float) (a b : list float) : bool :=
-  let s := PrimFloat.add 1 (fmaxabs b) in
+(* |x - y| <= tol * (fl + max|a| + max|b|): purely relative to the magnitude of the compared vectors plus a floor
+   [fl] that the caller derives from the magnitude of the inputs (0 where the output cannot be pure cancellation noise) *)
+Definition flist_close_fl (tol fl : float) (a b : list float) : bool :=
+  let s := PrimFloat.add fl (PrimFloat.add (fmaxabs a) (fmaxabs b)) in
   list_eqb (fun x y => PrimFloat.leb (PrimFloat.abs (PrimFloat.sub x y)) (PrimFloat.mul tol s) || (is_nan x && is_nan y)) a b.
+Definition flist_close_scaled (tol : float) (a b : list float) : bool := flist_close_fl tol 0x1p-1000%float a b.
 Definition v3list_close (tol : float) (a b : list (vec3 float)) : bool := list_eqb (v3close tol) a b.
 Definition flat3 (l : list (vec3 float)) : list float :=
   flat_map (fun p => [vx p; vy p; vz p]) l.
 Definition v3list_close_scaled (tol : float) (a b : list (vec3 float)) : bool :=
   flist_close_scaled tol (flat3 a) (flat3 b).
+Definition v3list_close_fl (tol fl : float) (a b : list (vec3 float)) : bool :=
+  flist_close_fl tol fl (flat3 a) (flat3 b).
 Definition nat_list_eqb := list_eqb Nat.eqb.
 Definition tri_list_eqb := list_eqb tri_eqb.
 Definition quad_eqb (a b : nat * nat * nat * nat) : bool :=
